@@ -1,5 +1,6 @@
 import Proofs.Trace
 import Proofs.PtrOkTrace
+import Proofs.ClearCrashMid
 /-! C18 — a torn or truncated write history is refused or opens consistent. The model keeps the
     program-ordered write log; `cutOpen` rebuilds both stores from any prefix of it (plus some bytes of a
     torn append) and applies the open-time checks. Proved so far: exactly the torn appends are refused,
@@ -12,7 +13,7 @@ import Proofs.PtrOkTrace
     the strict twins of all walks (every read bounds-checked, a miss = failure) return exactly what the
     model's walks return: no traversal or query reads outside the files (Proofs/PtrOk*). Crash points
     inside `clear` (its two truncations) are events of their own: Traph/Crash.lean `Event`, tied by the
-    crash-cut harness; theorems in Proofs/ClearCrash when present. -/
+    crash-cut harness; `C18_events_cut`, `C18_mid_clear`, `C18_clear_order_matters` (Proofs/ClearCrash*). -/
 namespace Traph.Props
 open Traph
 
@@ -112,5 +113,44 @@ theorem C18_whole_run (cfg : Config) (dflt : Rule) (rules : List (Bytes × Rule)
     (hop : ∀ op ∈ ops, ∀ d rs, op ≠ .clear d rs) (hwf : ∀ op ∈ ops, op.WF) :
     Whole ((State.fresh cfg dflt rules []).1.run ops) :=
   Traph.C18_whole_run cfg dflt rules ops hop hwf
+
+section ClearCuts
+open Traph State
+/-! ### histories with `clear`: its two truncations are crash points (Traph/Crash.lean `Event`; Proofs/LogIndep, ClearCrash, ClearCrashMid) -/
+
+/-- EVERY CUT OF EVERY HISTORY, `clear` allowed anywhere and any number of times: the event list is what the driver (and, by the tie, the real code) issues; a cut is refused iff it tears an append; otherwise it opens to a state below the completed state of its own segment (and of every later point up to the next `clear`), or to the one special state in the middle of a `clear` (trie emptied, link file still old) -/
+theorem C18_events_cut (cfg : Config) (dflt : Rule) (rules : List (Bytes × Rule)) (ops : List Op)
+    (ram : State) (k j : Nat) (hk : k ≤ (historyEvents cfg dflt rules ops).length) :
+    let full := historyEvents cfg dflt rules ops
+    let fr := (State.fresh cfg dflt rules []).1
+    let off := fun n => (historyEvents cfg dflt rules (ops.take n)).length
+    (cutOpenE ram full k j = .error .traph ↔ Torn full k j) ∧
+    (¬ Torn full k j → ∃ st, cutOpenE ram full k j = .ok st ∧
+      ((∃ n, n ≤ ops.length ∧ k ≤ off n ∧ (n = 0 ∨ off (n - 1) < k) ∧ st ⊑ fr.run (ops.take n) ∧
+          ∀ n', n ≤ n' → (∀ i op, n ≤ i → i < n' → ops[i]? = some op → op.isClear = false) →
+            st ⊑ fr.run (ops.take n')) ∨
+       (∃ n d rs, ops[n]? = some (.clear d rs) ∧ k = off n + 1 ∧
+          st = ram.midClearOpen (fr.run (ops.take n))))) :=
+  Traph.C18_events_cut cfg dflt rules ops ram k j hk
+
+/-- the mid-clear state answers every query like an empty index — no page, no link, no prefix, nothing resolves, no stub is ever read — except that `count_links`, computed from the size of the link file, still shows the old count -/
+theorem C18_mid_clear (ram a : State) :
+    let st := ram.midClearOpen a
+    st.pagesIter = [] ∧ (∀ o, st.linksIter o = []) ∧ st.prefixIter = [] ∧ (∀ b, st.dfsIter none b = []) ∧
+    (∀ o au, st.network o au = [] ∧ st.networkSlow o au = []) ∧
+    st.countPages = 0 ∧ st.countCrawledPages = 0 ∧ st.countLinks2 = a.links.size - 1 ∧
+    st.linksMetrics = (0, none, 0, none) ∧
+    (∀ l, st.retrieveWebentity l = .error .traph) ∧ (∀ l, st.retrievePrefix l = .error .traph) ∧
+    (∀ p, st.webentityByPrefix p = .error .traph) ∧
+    (∀ ps, st.webentityPages ps = if ps = [] then .ok [] else .error .traph) ∧
+    (∀ l i n o, st.pageLinks l i n o = []) ∧ (∀ l, st.lruNode l = none) :=
+  Traph.midClear_observers ram a
+
+/-- the order of the two truncations matters: with the link file emptied first, the intermediate state keeps page
+    blocks whose list heads point outside the (now empty) link file — where the real code raises on every link query -/
+theorem C18_clear_order_matters : ∃ st, swapDemoCut = .ok st ∧ (st.cell 1).flags.page = true ∧ (st.cell 1).out = 1 ∧
+    st.links.size = 1 ∧ (st.cell 2).flags.page = true ∧ (st.cell 2).inn = 2 ∧ ¬ LinksOk st := swapped_order_breaks
+
+end ClearCuts
 
 end Traph.Props
